@@ -109,7 +109,7 @@ def gen_cseg(ctx, rng, n, notes, tlc_bases):
     from_tlc = 0
     while len(out) < n:
         dtype = rng.choice(["uint32", "uint64"])
-        C = rng.choice([1, 1, 2, 2, 3])
+        C = rng.choice([1, 1, 2, 2, 3, 4, 5, 7])      # many channels: the channel table outweighs the block headers
         shape = [rng.randint(1, 4) for _ in range(3)]
         if rng.random() < 0.5:
             b = rng.randint(1, 4)
@@ -131,6 +131,12 @@ def gen_cseg(ctx, rng, n, notes, tlc_bases):
         else:
             raw = bytes(v)
         req = (C, shape, block, dtype)
+        if C >= 4 and rng.random() < 0.5:
+            # every cut inside (and just after) the channel offset table
+            for L in range(0, min(len(raw), 4 * C + 10)):
+                case = cd.record_cseg_decode(raw[:L], C, shape, block, dtype)
+                out.append((case, {"codec": "compressed_segmentation", "mutation": "truncate@%d" % L, "buf": raw[:L],
+                                   "request": {"channels": C, "shape_xyz": shape, "block": block, "dtype": dtype}}))
         for _ in range(rng.randint(3, 8)):
             r = rng.random()
             if r < 0.12:
